@@ -46,6 +46,8 @@ class PGen(Gen):
                 return self.op("Count", self.seq(env, r.choice(seqs)[1], d - 1))
         if ch < 0.9:
             return ast.IfExp(test=self.boolean(env, d - 1), body=self.num(env, d - 1), orelse=self.num(env, d - 1))
+        if len(src) >= 2:
+            return ast.Call(func=N("fadd"), args=[r.choice(src)], keywords=[ast.keyword(arg=r.choice(["b", "k"]), value=r.choice(src))])
         return r.choice(src)
 
     def pack_shape(self, env, d):
@@ -207,6 +209,11 @@ def judge(ctx, q, final_packaged, gap_ok, info):
 
 
 DIRECTED = [
+    # packaged through First() in one stage, taken apart by attribute / key / index in the next
+    ("Select(Select(Where(EventDataset(), lambda e: Count(e.jets) > 0), lambda e: First(Select(e.jets, lambda j: {'j': j, 'm': e.met}))), lambda d: d.j.pt + d.m)", False),
+    ("Select(Select(Where(EventDataset(), lambda e: Count(e.jets) > 0), lambda e: First(Select(e.jets, lambda j: {'j': j, 'm': e.met}))), lambda d: d['j'].pt + d['m'])", False),
+    ("Select(Select(Where(EventDataset(), lambda e: Count(e.jets) > 0), lambda e: First(Select(e.jets, lambda j: (j, e.met)))), lambda d: d[0].pt + d[1])", False),
+    ("Select(Select(Where(EventDataset(), lambda e: Count(e.jets) > 0), lambda e: First(Select(e.jets, lambda j: {'p': (j.pt, j.eta)}))), lambda d: d.p[1])", False),
     ("Select(Select(EventDataset(), lambda e: (e.x, e.y)), lambda t: t[0] + t[1])", False),
     ("Select(Where(Select(EventDataset(), lambda e: {'a': e.x, 'j': e.jets}), lambda t: t.a > 1), lambda t: Count(t.j))", False),
     ("Select(SelectMany(Select(EventDataset(), lambda e: (e.jets, e.met)), lambda t: Select(t[0], lambda j: (j, t[1]))), lambda u: u[0].pt + u[1])", False),
